@@ -246,6 +246,17 @@ def core_specs():
     add('static-box-zero-ub', dv=[dict(shape=[2])], rv=[[2]], sets=[box([-1, -2], 0)], bounds=bx,
         rows=[dict(e=[['x', 0, [1, 2]], ['xz', 0, 0, [[1, 1], [0, -1]]]], sense='le', rhs=5)],
         obj=dict(kind='minmax', set=0, e=[['x', 0, [-1, -1]], ['z', 0, [1, 1]]]))
+    # 3b. strictly negative / strictly positive boxes (bound objects with ub < 0 and lb > 0)
+    add('static-box-negative', dv=[dict(shape=[2])], rv=[[2]], sets=[box([-3, 0.5], [-1, 2])], bounds=bx,
+        rows=[dict(e=[['x', 0, [1, 2]], ['xz', 0, 0, [[1, 1], [0, -1]]]], sense='le', rhs=9),
+              dict(e=[['x', 0, [1, -1]], ['xz', 0, 0, [[0.5, 0], [0, 0.5]]]], sense='ge', rhs=-6)],
+        obj=dict(kind='minmax', set=0, e=[['x', 0, [-1, -1]], ['z', 0, [1, 1]], ['xz', 0, 0, [[0.25, 0], [0, 0.25]]]]))
+    # 3c. one-sided zero upper bound combined with a finite lower bound per component + forall set with negative bounds
+    add('static-forall-negative', dv=[dict(shape=[2])], rv=[[2]], sets=[box([-2, -1], [0, 0]), box([-3, -2], [-1, -0.5])],
+        bounds=bx,
+        rows=[dict(e=[['x', 0, [1, 1]], ['xz', 0, 0, [[1, 0], [0, 1]]]], sense='le', rhs=5, set=1),
+              dict(e=[['x', 0, [1, -1]], ['xz', 0, 0, [[0, 1], [1, 0]]]], sense='le', rhs=6)],
+        obj=dict(kind='minmax', set=0, e=[['x', 0, [-1, -1]], ['xz', 0, 0, [[-0.5, 0], [0, -0.5]]]]))
     # 4. maxmin objective
     add('static-maxmin', dv=[dict(shape=[2])], rv=[[2]], sets=[box(-1, 1)], bounds=bx,
         rows=[dict(e=[['x', 0, [1, 1]], ['xz', 0, 0, [[1, 0], [0, 1]]]], sense='le', rhs=4)],
@@ -374,7 +385,7 @@ def random_spec(rnd, i):
     gn = lambda: rnd.choice([v for v in GRID if v != 0])
     eighth = lambda: rnd.randint(-32, 32) / 8.0
     coef = g if rnd.random() < 0.6 else eighth
-    kind = rnd.choice(['box', 'box0', 'norm1', 'norminf', 'ball', 'lin', 'boxnorm1'])
+    kind = rnd.choice(['box', 'box0', 'norm1', 'norminf', 'ball', 'lin', 'boxnorm1', 'boxneg'])
     if kind == 'box':
         lo = [-rnd.choice([0.5, 1, 2]) for _ in range(nz)]
         hi = [rnd.choice([0.5, 1, 2]) for _ in range(nz)]
@@ -384,6 +395,13 @@ def random_spec(rnd, i):
             s = box(0, [rnd.choice([0.5, 1, 2]) for _ in range(nz)])
         else:
             s = box([-rnd.choice([0.5, 1, 2]) for _ in range(nz)], 0)
+    elif kind == 'boxneg':
+        lo, hi = [], []
+        for _ in range(nz):
+            a_, b_ = rnd.choice([(-3, -1), (-2, -0.5), (0.5, 2), (1, 3), (-1, 0), (0, 1.5)])
+            lo.append(a_)
+            hi.append(b_)
+        s = box(lo, hi)
     elif kind == 'norm1':
         s = [dict(t='norm', p=1, r=rnd.choice([1, 1.5, 2]), c=[rnd.choice([0, 0.5, -0.5]) for _ in range(nz)])]
     elif kind == 'norminf':
